@@ -85,6 +85,18 @@ theorem readonly_no_write_step (ts : List (Thread Loc Val σ)) (hro : ∀ t ∈ 
     a package-level variable or the caller's Public context -/
 theorem gen_exec_is_readonly : Gen.execWrites = [] := by decide
 
+/-- the only atomic update an execution can perform on long-lived memory is setting the set's
+    "a template was handed out" flag to `true` (a lazy include compiles at run time): idempotent and
+    monotone, so executions commute with it — in particular no counter or limit is shared
+    between executions -/
+theorem gen_atomic_updates_idempotent :
+    Gen.execAtomicWrites.all (fun w => w.2 == "TemplateSet.firstTemplateCreated.Store(true)") = true := by decide
+
+/-- no function an execution can reach mentions a package-level object of one of the engine's
+    own struct types (a shared `*Error`, `*Value`, `*Template`, …): what executions hand out is
+    built per execution -/
+theorem gen_no_shared_objects : Gen.execSharedObjects = [] := by decide
+
 /-- the call graph was not truncated: the anchors are all reachable -/
 theorem gen_call_graph_anchors : Gen.execReachableAnchors.all (·.2) = true := by decide
 
